@@ -51,9 +51,10 @@ def ofF64 (b : Nat) : Nat :=
   else if F64.isInf b then withSign (F64.signBit b) infBits
   else withSign (F64.signBit b) (roundMag (F64.mant b) (F64.expo b))
 
-/-- `f64::from(x)` for the binary32 pattern `x`: exact. -/
+/-- `f64::from(x)` for the binary32 pattern `x`: exact (a NaN comes back quiet). -/
 def toF64 (b : Nat) : Nat :=
-  if isNaN b then F64.withSign (signBit b) (F64.infBits + frac b * p29)
+  if isNaN b then
+    F64.withSign (signBit b) (F64.infBits + (if frac b / p22 % 2 == 1 then frac b else frac b + p22) * p29)
   else if isInf b then F64.withSign (signBit b) F64.infBits
   else F64.withSign (signBit b) (F64.roundMag (mant b) (expo b))
 
